@@ -39,6 +39,8 @@ CASES = {
     'cp-select': (do_constant_propagation, "t = 5\n select case (n)\n case (0)\n  t = 4\n end select\n k = t\n", 'k = 5 or k = 4 chosen statically'),
     'cp-exit': (do_constant_propagation, "t = 1\n do i = 1, 3\n  if (a(i) > n) exit\n  t = 2\n end do\n k = t\n", 'k = 2 although the loop may exit before t = 2'),
     'cp-assoc': (do_constant_propagation, "t = 3\n associate (z => t)\n  z = z + 5\n end associate\n k = t\n", 'k = 3'),
+    'cp-unroll-kind': ('kind', "x = 0.0_jprb\n do i = 3, 2, -1\n  ra(i) = abs(x)\n end do\n",
+                       'AssertionError: Missing type information for variable symbol "jprb" (raises, no wrong code)'),
     'dce-elseif': (do_remove_dead_code, "if (flag) then\n  k = 1\n else if (1 > 2) then\n  k = 2\n end if\n", 'pydantic ValidationError: has_elseif becomes an empty tuple'),
     'vars-loopvar': (lambda r: do_remove_unused_vars(r, remove_only_arrays=False), "do i = 1, 3\n  a(i) = 0\n end do\n", 'the declaration of the loop variable i is removed (also j, l, t: fine)'),
 }
@@ -50,6 +52,10 @@ def run(name):
     if trafo == 'call':
         text = "module md\ncontains\n" + text + "subroutine h(x)\n integer, intent(inout) :: x\n x = x + 1\nend subroutine h\nend module md\n"
         trafo = do_constant_propagation
+    if trafo == 'kind':
+        text = ("module md\n integer, parameter :: jprb = selected_real_kind(13, 300)\ncontains\nsubroutine s(ra, x)\n"
+                " real(kind=jprb), intent(inout) :: ra(1:4)\n real(kind=jprb), intent(out) :: x\n integer :: i\n " + body + "end subroutine s\nend module md\n")
+        trafo = lambda r: do_constant_propagation(r, unroll_loops=True)
     if trafo == 'split':
         def trafo(r):
             from loki.ir import nodes as ir, FindNodes
